@@ -586,9 +586,13 @@ impl<'ccx, 'tcx: 'ccx> TyGenContext<'ccx, 'tcx, '_> {
             Type::Opaque(..) => format!("{cpp_name}.AsFFI()").into(),
             Type::Struct(..) => format!("{cpp_name}.AsFFI()").into(),
             Type::Enum(..) => format!("{cpp_name}.AsFFI()").into(),
-            Type::Slice(Slice::Strs(..)) => format!(
+            Type::Slice(Slice::Strs(encoding)) => format!(
                 // Layout of DiplomatStringView and std::string_view are guaranteed to be identical, otherwise this would be terrible
-                "{{reinterpret_cast<const diplomat::capi::DiplomatStringView*>({cpp_name}.data()), {cpp_name}.size()}}"
+                "{{reinterpret_cast<const diplomat::capi::{}*>({cpp_name}.data()), {cpp_name}.size()}}",
+                match encoding {
+                    hir::StringEncoding::UnvalidatedUtf16 => "DiplomatString16View",
+                    _ => "DiplomatStringView",
+                }
             ).into(),
             Type::Slice(..) => format!("{{{cpp_name}.data(), {cpp_name}.size()}}").into(),
             Type::DiplomatOption(ref inner) => {
